@@ -36,6 +36,9 @@ func TestC09Controlled(t *testing.T) {
 			if f := c.X.checkC10(true); f != nil {
 				return fail("C09", "lifetime-rules", f.Oracle+"/"+f.Sig, "%s", f.Msg)
 			}
+			if f := c.X.checkC11Deps(); f != nil {
+				return fail("C09", "lifetime-rules", f.Oracle+"/"+f.Sig, "%s", f.Msg)
+			}
 			return nil
 		},
 		func(c *overlapCase) bool { return true })
